@@ -14,7 +14,12 @@ Clause == IF ~P_Idempotent(R) THEN (IF R.ok2 THEN "reparse-differs" ELSE "repars
 JudgeP == Clause = "none" \/ PrintT(<<"VIOL", R.id, Clause>>)
 SingleLax == R.T.k = "rule" /\ Len(R.T.cons) = 1 /\ R.T.cons[1].lax /\ R.welltyped
 JudgeMC == ~SingleLax \/ P_LaxFixedPoint(R.x, R.T.cons[1]) \/ PrintT(<<"MVIOL", R.id>>)
+\* the model does not carry the characters of a truncated text: texts are compared by length
+SameV(a, b) == IF a.k \in {"str", "bytes"} THEN a.k = b.k /\ a.ln = b.ln ELSE PyEq(a, b)
 JudgeM == ~SingleLax \/ ~Modelled(R.T.cons[1])
-          \/ (LaxV(R.x, R.T.cons[1]).ok = R.ok1 /\ (R.ok1 => PyEq(LaxV(R.x, R.T.cons[1]).v, R.v1)))
+          \/ (LaxV(R.x, R.T.cons[1]).ok = R.ok1 /\ (R.ok1 => SameV(LaxV(R.x, R.T.cons[1]).v, R.v1)))
+          \/ PrintT(<<"DIV", R.id>>)
+\* cases of the MC_Constraints universe (tag "universe": well-typed int inputs, several constraints): the whole chain as transcribed
+JudgeU == R.tag # "universe" \/ (RunRule(R.x, R.T.cons, 1).ok = R.ok1 /\ (R.ok1 => PyEq(RunRule(R.x, R.T.cons, 1).v, R.v1)))
           \/ PrintT(<<"DIV", R.id>>)
 =============================================================================
